@@ -457,6 +457,25 @@ def family_conn(tier='quick'):
         out.append(Desc(['A', 'P0', 'P1'], [], ['A'], choices=[('C1', 'A', ['P0', 'P1'])], conns=conns,
                         groups=[('G', ['g1', 'g2'])],
                         conn_choices=[('CC', ['G', 's1'], ['t0', 't1'], [])], label=f'conn-group-{trial}'))
+    # grouping node with unbounded members (its per-scenario degree range is capped from the connection limits) and
+    # three targets; members permanent+conditional / both conditional under different options; group on the target side
+    o1 = ('range', 0, 1)
+    for trial, (da, ra, db_, rb, pa, pb) in enumerate(((('min', 1), False, ('min', 0), False, 'A', 'P0'),
+                                                       (('min', 1), False, ('min', 0), False, 'P0', 'P1'),
+                                                       (('min', 1), True, ('min', 0), True, 'P0', 'P1'),
+                                                       (('min', 0), False, ('range', 0, 1), False, 'A', 'P0'),
+                                                       (('min', 1), False, ('list', (1, 2)), False, 'P0', 'P1'),
+                                                       (('list', (1, 2)), False, ('min', 0), False, 'A', 'P0'))):
+        if tier == 'quick' and trial == 2:
+            continue
+        conns = [('g1', da, ra, pa), ('g2', db_, rb, pb), ('t0', o1, False, 'A'), ('t1', o1, False, 'A'), ('t2', o1, False, 'A')]
+        out.append(Desc(['A', 'P0', 'P1'], [], ['A'], choices=[('C1', 'A', ['P0', 'P1'])], conns=conns,
+                        groups=[('G', ['g1', 'g2'])], conn_choices=[('CC', ['G'], ['t0', 't1', 't2'], [])],
+                        label=f'conn-group-unbounded-{trial}'))
+    conns = [('s0', o1, False, 'A'), ('s1', o1, False, 'A'), ('s2', o1, False, 'A'), ('g1', ('min', 1), False, 'A'), ('g2', ('min', 0), False, 'P0')]
+    out.append(Desc(['A', 'P0', 'P1'], [], ['A'], choices=[('C1', 'A', ['P0', 'P1'])], conns=conns,
+                    groups=[('G', ['g1', 'g2'])], conn_choices=[('CC', ['s0', 's1', 's2'], ['G'], [])],
+                    label='conn-group-unbounded-target-side'))
     return out
 
 
